@@ -70,13 +70,14 @@ def decodeAnswer (S : Schema) (fuel : Nat) (f : String) (resp : Bytes) : Outcome
     | .panic p => .panic p
   | _, _ => .err "undeclared"
 
-/-- `LiteapiRequestDecoder`: the id selects the function, its parameters are decoded; any failure yields "Unknown" -/
+/-- `LiteapiRequestDecoder`: the id selects the function, its parameters are decoded; any ERROR yields "Unknown" -/
 def requestDecoder (S : Schema) (fuel : Nat) (bs : Bytes) : Outcome (Nat × Option (String × List Val)) :=
   match readLE 4 bs with
   | .ok (tag, _) =>
     match decodeRequest S fuel bs with
     | .ok (name, vs, _) => .ok (tag, some (name, vs))
-    | _ => .ok (tag, none)
+    | .err _ => .ok (tag, none)               -- Go: any error of the selected decoder, or no decoder → UnknownRequest
+    | .panic p => .panic p                    -- a panic (in the model: fuel exhaustion) is NOT turned into "Unknown"
   | .err x => .err x
   | .panic p => .panic p
 
@@ -88,6 +89,26 @@ def accountIdTL (workchain : Nat) (addr : Bytes) : Bytes := le 4 workchain ++ ad
 /-- `ton.BlockIDExt.MarshalTL` -/
 def blockIdExtTL (workchain shard seqno : Nat) (root file : Bytes) : Bytes :=
   le 4 workchain ++ le 8 shard ++ le 4 seqno ++ root ++ file
+
+/-- `(*ton.AccountID).UnmarshalTL(r io.Reader)`: `io.ReadFull` of 4 bytes (workchain), then of 32 bytes (address) -/
+def accountIdUnTL (bs : Bytes) : Outcome ((Nat × Bytes) × Bytes) :=
+  match readLE 4 bs with
+  | .ok (wc, r) =>
+    match readN 32 r with
+    | .ok (a, r') => .ok ((wc, a), r')
+    | .err e => .err e
+    | .panic p => .panic p
+  | .err e => .err e
+  | .panic p => .panic p
+
+/-- `(*ton.BlockIDExt).UnmarshalTL(data []byte)`: exactly 80 bytes or "invalid data length", then the five slices -/
+def blockIdExtUnTL (data : Bytes) : Outcome (Nat × Nat × Nat × Bytes × Bytes) :=
+  if data.length ≠ 80 then .err "invalid data length"
+  else .ok (unLe (data.take 4), unLe ((data.drop 4).take 8), unLe ((data.drop 12).take 4),
+            (data.drop 16).take 32, (data.drop 48).take 32)
+
+/-- `(*tl.Int256).UnmarshalTL(r io.Reader)`: `io.ReadFull` of 32 bytes -/
+def int256UnTL (bs : Bytes) : Outcome (Bytes × Bytes) := readN 32 bs
 
 def accountIdDecl : Decl :=
   { ctor := "liteServer.accountId", id := 0x75a0e2c5,
